@@ -21,7 +21,7 @@ flock -u 9
 bin/verif-c20 check C20 "$TIER"
 rc=$?
 [ $rc = 2 ] && exit 2
-ROUNDS=60; [ "$TIER" = thorough ] && ROUNDS=1500
+ROUNDS=25; [ "$TIER" = thorough ] && ROUNDS=1500
 RACELOG=replays/C20-race.log
 GORACE="halt_on_error=1 exitcode=66" bin/c20race $ROUNDS evidence/C20.json >"$RACELOG" 2>&1
 rrc=$?
